@@ -834,8 +834,14 @@ def simple_class_progs(rng: Rng, tier):
             n = rng.choice([1, 2, 5])
             shape = (n,) if nt == 1 else (nt, n)
             pv = rng.grid(nt * n, G4); lv = [rng.choice([0, 1]) for _ in range(nt * n)]
-            wv = rng.grid(nt * n, W4)
-            bs.append(Batch((ft(pv, shape=shape), ft(lv, shape=shape), ft(wv, shape=shape))))
+            if rng.random() < 0.5:
+                wv = rng.grid(nt * n, W4)
+                bs.append(Batch((ft(pv, shape=shape), ft(lv, shape=shape), ft(wv, shape=shape))))
+            else:
+                # a python-scalar weight for the whole batch, different from batch to batch: it cancels within ONE call, not across
+                # the accumulated updates of the class
+                q = rng.choice(W4); wv = [q] * (nt * n)
+                bs.append(Batch((ft(pv, shape=shape), ft(lv, shape=shape), float(q) if rng.random() < 0.7 else int(q) if q == int(q) else float(q))))
             for r in range(nt):
                 sl = slice(r * n, (r + 1) * n)
                 ws[r] += sum(a * b for a, b in zip(wv[sl], pv[sl])); wl[r] += sum(a * b for a, b in zip(wv[sl], lv[sl]))
